@@ -419,6 +419,13 @@ fn prop_table(t0: &TableM, ctx: &Ctx) -> PResult {
         gs.slots = slots;
         direct.gearsets[s.position as usize] = Some(gs);
     }
+    // every other value is handed over as a list that ends with its last named set (the trailing blank rows dropped): the
+    // file is a table of 100 rows however long the list is
+    if t0.sets.iter().map(|s| s.position as u64 * 7 + s.index as u64).sum::<u64>() % 2 == 1 {
+        let keep = direct.gearsets.iter().rposition(|g| g.is_some()).map(|i| i + 1).unwrap_or(0);
+        direct.gearsets.truncate(keep);
+        ctx.class("gearsets:list-shorter-than-100-written");
+    }
     let w2 = match guard("GearSets::write_to_buffer", || direct.write_to_buffer())? {
         Some(w) => w,
         None => return fail("gearsets-write-none", "write_to_buffer returned None"),
